@@ -4,17 +4,23 @@ Driver commands of property C12 / C09 writer part (core Lean only).  Command nam
   c12.trace <wc> <repaired 0|1> <faultFrom|-> <script> <events>
       is the observed event trace a path of the writer LTS (with unobservable steps in between)?
       answer: `path out=<ids> eof=<0|1> done=<0|1> stuck=<0|1> err=<0|1>`  or  `reject <index of first unmatched event>`
+  c12.tracec <wc> <repaired> <faultFrom|-> <ids of blocks whose compression fails|-> <script> <events>
+      as c12.trace, with the compression-failure oracle
   c12.traceu … same, but only the underlying writer's calls are observed (API events are hidden steps)
   c12.explore <wc> <repaired 0|1> <faultFrom|-> <script>
       exhaustive exploration of the LTS for this configuration:
       `states=<n> dead=<n> badprefix=<n> final=<n> outs=<distinct final outs>`
   c12.seq <script>      the sequential writer's output: `<nblocks> <eof>`
+  c12.abstract <concrete script: w<bytes>|f|wt|c>
+      the Lean abstraction `Hts.Model.WriterCompose.absScript` of a concrete script (payload sizes) to the LTS
+      script (`w<k>`, `f0|f1`, `wt`, `c`) — compared with the harness's own block-splitting simulation
 
 script:  comma separated  w<k> | f0 | f1 | wt | c          ("-" = empty)
 events:  comma separated  C<op> (call) | R<ok|err|closed> (return) | U<blk|e>:<0|1> (underlying Write, ok flag)
 -/
 import Hts.Drv.Util
 import Hts.Model.WriterLTS
+import Hts.Model.WriterAbs
 import Std.Data.HashSet
 namespace Hts.Drv.C12
 open Hts.Drv Hts.Model.WriterLTS
@@ -54,9 +60,10 @@ def evMatch (obs e : Ev) : Bool :=
   | .uw b k, .uw b' k' => b == b' && k == k'
   | _, _ => false
 
-def mkCfg (wc : Nat) (rep : Bool) (fault : Option Nat) (script : List Op) : Cfg :=
+def mkCfg (wc : Nat) (rep : Bool) (fault : Option Nat) (script : List Op) (cfaults : List Nat := []) : Cfg :=
   { wc := wc, script := script, repaired := rep,
-    fault := fun i => match fault with | none => false | some k => decide (k ≤ i) }
+    fault := fun i => match fault with | none => false | some k => decide (k ≤ i),
+    cfault := fun b => cfaults.contains b }
 
 def parseFault (s : String) : Option (Option Nat) :=
   if s == "-" then some none else (parseNat s).map some
@@ -107,8 +114,9 @@ def showNats (l : List Nat) : String :=
 
 def b01 (b : Bool) : String := if b then "1" else "0"
 
-def traceCmd (hide : Bool) (wc : Nat) (rep : Bool) (fault : Option Nat) (script : List Op) (evs : List Ev) : String :=
-  let cfg := mkCfg wc rep fault script
+def traceCmd (hide : Bool) (wc : Nat) (rep : Bool) (fault : Option Nat) (script : List Op) (evs : List Ev)
+    (cfaults : List Nat := []) : String :=
+  let cfg := mkCfg wc rep fault script cfaults
   match replay cfg hide [init cfg] evs 0 with
   | .error i => s!"reject {i}"
   | .ok ss =>
@@ -143,10 +151,31 @@ def exploreCmd (wc : Nat) (rep : Bool) (fault : Option Nat) (script : List Op) :
     | s :: _ => (toString (repr s.api)).replace " " "" ++ "/" ++ ((toString (repr s.em)).replace " " "").replace "\n" ""
   s!"states={all.length} dead={dead.length} badprefix={badp.length} final={fin.length} outs={outs.length} deadAt={deadDesc}"
 
+/-- a concrete script by payload sizes: `w<bytes>` | `f` | `wt` | `c` -/
+def parseConcrete (s : String) : Option (Hts.Model.BgzfWriter.Op Unit) :=
+  if s == "wt" then some .wait
+  else if s == "c" then some .close
+  else if s == "f" then some .flush
+  else if s.startsWith "w" then (parseNat (s.drop 1).toString).map fun n => .write (List.replicate n ())
+  else none
+
+def showOp : Op → String
+  | .write k => s!"w{k}"
+  | .flush b => if b then "f1" else "f0"
+  | .wait => "wt"
+  | .close => "c"
+
 def handle (cmd : String) (args : List String) : Option String :=
   match cmd, args with
+  | "c12.abstract", [script] => do
+    let ops ← parseList parseConcrete script
+    let abs := Hts.Model.WriterCompose.absScript ops
+    some (if abs.isEmpty then "-" else ",".intercalate (abs.map showOp))
   | "c12.traceu", [wc, rep, fault, script, evs] => do
     some (traceCmd true (← parseNat wc) (rep == "1") (← parseFault fault) (← parseList parseOp script) (← parseList parseEv evs))
+  | "c12.tracec", [wc, rep, fault, cfs, script, evs] => do
+    some (traceCmd false (← parseNat wc) (rep == "1") (← parseFault fault) (← parseList parseOp script)
+      (← parseList parseEv evs) (← parseList parseNat cfs))
   | "c12.trace", [wc, rep, fault, script, evs] => do
     some (traceCmd false (← parseNat wc) (rep == "1") (← parseFault fault) (← parseList parseOp script) (← parseList parseEv evs))
   | "c12.explore", [wc, rep, fault, script] => do
